@@ -150,6 +150,17 @@ class Facts:
         self.adts = {a["def"]: a for a in d["items"]["adts"]}
         self.fns = {f["def"]: f for f in d["items"]["fns"]}
 
+    OPAQUE_HELPERS = ("methods::bdf::", "matrix::", "<matrix::", "dense::", "<dense::", "methods::hinit", "methods::Tolerance", "<methods::Tolerance")
+
+    def inlinable(self, d):
+        """crate-private helper functions that the interpreters step into (helpers the rules model themselves stay opaque)"""
+        rec = self.fns.get(d)
+        if rec is None or d not in self.bodies or not str(rec.get("vis", "")).startswith("Restricted"):
+            return False
+        if d.startswith(self.OPAQUE_HELPERS) or "::{closure" in d:
+            return False
+        return rec.get("dk") in ("Fn", "AssocFn") and bool(rec.get("has_body"))
+
     def body(self, def_path):
         b = self.bodies.get(def_path)
         if b is None:
@@ -173,6 +184,11 @@ def load(cfg="default", repo=REPO):
     f.build_s = time.time() - t0
     f.cached = cached
     _cache[key] = f
+    try:
+        import mon
+        mon.FACTS = f
+    except ImportError:
+        pass
     return f
 
 
